@@ -130,6 +130,10 @@ def build_asset(a, built, tz=None):
             kw[k] = np.asarray(v, dtype=float) if seq_form == 'array' else tuple(v)
         else:
             kw[k] = copy.deepcopy(v)
+    if a.get('_take_scalar'):
+        for k in ('min_take', 'max_take'):
+            if isinstance(kw.get(k), dict) and len(kw[k].get('values', [])) == 1 and not isinstance(kw[k]['start'], (np.ndarray, pd.DatetimeIndex)):
+                kw[k] = {kk: (vv[0] if isinstance(vv, list) else vv) for kk, vv in kw[k].items()}
     nodes = [_node(built, n) for n in node_names] if node_names is not None else None
     if typ == 'ScaledAsset':
         base = build_asset(a['base'], built, tz)
